@@ -424,6 +424,7 @@ def gen_tms_dataset(rng):
     xyz = base[None, :] + np.array([[rng.uniform(-0.05, 0.05) for _ in range(3)] for _ in range(n)])
     if big:
         xyz = np.array([[gen_coord(rng, allow_nan=False) for _ in range(3)] for _ in range(n)])
+    xyz = np.clip(xyz, -9_999_999.9999, 9_999_999.9999)
     d.add_position("obs.site_pos", val=xyz, system="trs")
     which = []
     def addf(name, gen, unit="meter"):
@@ -540,10 +541,23 @@ def case_tms(run: Run, rng, dft: List[Tuple[str, str]]):
         if drv.ask1(f"c17 conforms sinex_tms {TMS_REF_LINE} {hexs(rl)}") != "1":
             ctx.disagree("sinex_tms REF_COORDINATE line vs regenerated layout", case, "conforms", rl)
     # ---- oracle: columns kept (as many blank-separated tokens as columns), read-back through the parser
-    for l in body:
+    from midgard.writers import sinex_tms as wmod
+
+    for li, l in enumerate(body):
         if len(l.split()) != len(cols):
-            ctx.violate("sinex_tms:column-overflow", f"TIMESERIES/DATA line has {len(l.split())} blank-separated values for {len(cols)} "
-                        f"columns (adjacent cells ran into each other): {l.strip()[:120]}", case)
+            # which cell is full?  (the writer's own DATA_TYPES table, formatted by Python itself)
+            src = sorted(range(len(idx_sta)), key=lambda k: t_us[idx_sta[k]])[li]
+            full = []
+            for c in cols[1:]:
+                fmt = wmod.DATA_TYPES[c].format
+                w = int(fmt.split(".")[0].rstrip("sdf"))
+                v = tms_value(d, fieldof[c], idx_sta[src])
+                if len(f"{{:{fmt}}}".format(v).strip()) >= w:
+                    full.append(f"{c}={v!r} as {fmt}")
+            culprit = full[0].split("=")[0] if full else "?"
+            ctx.violate(f"sinex_tms:column-overflow:{culprit}", f"TIMESERIES/DATA line has {len(l.split())} blank-separated values for "
+                        f"{len(cols)} columns: the cell of {', '.join(full)[:200]} has no blank left and runs into its neighbour: "
+                        f"{l.strip()[:140]}", case)
             return
     with quiet():
         try:
@@ -748,7 +762,7 @@ def run(ctx: Ctx):
     try:
         r = Run(ctx, tmp)
         r.last_path = None
-        n = ctx.budget(60, 3000)
+        n = ctx.budget(900, 15000)
         dft = info["data_field_types"]
         for i in range(n):
             k = i % 6
